@@ -19,6 +19,7 @@ The rule table (C++ construct -> primitive) is the trusted part of this translat
 DESIGN.md §3g.
 """
 import json, os, subprocess, sys, tempfile, re
+sys.path.insert(0, os.path.dirname(os.path.abspath(__file__)))
 
 PRELUDE = r'''
 #include "cappuccino/cappuccino.hpp"
@@ -101,6 +102,8 @@ def core(n):
         return dict(k="forrange", t="", n=names, a=[rng, core(inner[7])])
     if k == "WhileStmt":
         return mk("while")
+    if k == "ForStmt":
+        return dict(k="for", t="", n=None, a=[core(c) if c else dict(k="?None", t="", n=None, a=[]) for c in n.get("inner", [])])
     if k == "BreakStmt":
         return mk("break")
     if k == "ReturnStmt":
@@ -194,7 +197,13 @@ class Tr:
     def __init__(self, cls, methods):
         self.cls = cls
         self.sc = SCHEMA[cls]
-        self.methods = methods
+        self.methods = {}
+        for name, bodies in methods.items():
+            if len(bodies) == 1:
+                self.methods[name] = bodies
+            else:
+                for b in bodies:
+                    self.methods["%s/%d" % (name, len(b[0]))] = [b]
         self.f_by_cpp = {cpp: (coq, kind) for coq, cpp, kind in self.sc["fields"] if cpp}
         self.ef_by_cpp = {cpp: (coq, kind) for coq, cpp, kind in self.sc["elem_fields"]}
         self.kind_field = {}
@@ -212,9 +221,22 @@ class Tr:
     def fld(self, kind, s):
         return "(%s %s)" % (self.kind_field[kind], s)
 
+    # ---- extension points for the per-family modules (cpp2coq_<family>.py): return None when not handled
+    def akind_ext(self, t, param):
+        return None
+
+    def E_ext(self, c, st, env):
+        return None
+
+    def X_ext(self, c, st, env):
+        return None
+
     def akind(self, t, param=False):
         """abstract kind of a C++ type"""
         t = t.replace("const ", "").strip()
+        r = self.akind_ext(t, param)
+        if r is not None:
+            return r
         if "lock_guard" in t:
             return "guard"
         if t.endswith("::element &") or t.endswith("::element"):
@@ -250,11 +272,31 @@ class Tr:
 
     COQTY = {"nat": "nat", "bool": "bool", "key": "K", "val": "V", "optval": "option V", "allow": "allow", "peek": "bool",
              "liter": "iter", "mit": "option K", "eref": "nat", "unit": "unit", "kvrange": "list (K * V)", "krange": "list K",
-             "fillrange": "list (K * option V)", "outvec": "list (K * option V)"}
+             "fillrange": "list (K * option V)", "outvec": "list (K * option V)", "time": "Z", "dur": "Z"}
 
     # ---- expressions: returns (list of bind lines, term, kind); may update the state name
     def E(self, c, st, env):
+        r = self.E_ext(c, st, env)
+        if r is not None:
+            return r
         k = c["k"]
+        if k in ("bin",) and c["n"] in ("&&", "||"):
+            # short-circuit: the right operand is evaluated (and may be undefined) only when needed
+            b1, t1, k1 = self.E(c["a"][0], st, env)
+            st2 = [st[0]]
+            b2, t2, k2 = self.E(c["a"][1], st2, env)
+            if (k1, k2) != ("bool", "bool") or st2[0] != st[0]:
+                raise Unsupported("operands of %s" % c["n"])
+            x = self.fresh("c")
+            inner = "\n".join(b2 + ["Ok %s" % t2])
+            if c["n"] == "&&":
+                return b1 + ["do %s <- (if %s then (" % (x, t1), inner, ") else Ok false);"], x, "bool"
+            return b1 + ["do %s <- (if %s then Ok true else (" % (x, t1), inner, "));"], x, "bool"
+        if k == "un" and c["n"] == "pre!":
+            b, t, kd = self.E(c["a"][0], st, env)
+            if kd != "bool":
+                raise Unsupported("! on %s" % kd)
+            return b, "(negb %s)" % t, "bool"
         if k == "int":
             return [], str(c["n"]), "nat"
         if k == "bool":
@@ -276,6 +318,8 @@ class Tr:
             f = c["n"]
             if f == "move" or f == "forward":
                 return self.E(c["a"][0], st, env)
+            if f == "now" and not c["a"] and self.sc.get("clock"):
+                return [], "clk", "time"
             if f == "update_allowed":
                 b, t, _ = self.E(c["a"][0], st, env)
                 return b, "(a_upd %s)" % t, "bool"
@@ -401,6 +445,7 @@ class Tr:
         raise Unsupported("expression %s" % show(c)[:200])
 
     def call_method(self, m, args, st, env):
+        m = self.pick(m, len(args))
         self.calls.setdefault(self.cur, set()).add(m)
         pk, rk = self.sig(m)
         b, ts = [], []
@@ -412,15 +457,27 @@ class Tr:
             ts.append(t)
         ns = self.fresh("s")
         if rk == "unit":
-            b.append("do %s <- g_%s %s %s;" % (ns, m, st[0], " ".join(ts)))
+            b.append("do %s <- %s %s %s;" % (ns, self.gname(m), st[0], " ".join(ts)))
             st[0] = ns
             return b, "tt", "unit"
         r = self.fresh("r")
         x = self.fresh("x")
-        b.append("do %s <- g_%s %s %s;" % (x, m, st[0], " ".join(ts)))
+        b.append("do %s <- %s %s %s;" % (x, self.gname(m), st[0], " ".join(ts)))
         b.append("let '(%s, %s) := %s in" % (ns, r, x))
         st[0] = ns
         return b, r, rk
+
+    def pick(self, m, nargs=None):
+        """the method key for a call of m with nargs arguments: m, or m/arity when overloaded"""
+        if m in self.methods and len(self.methods[m]) == 1:
+            return m
+        key = "%s/%d" % (m, nargs)
+        if key in self.methods:
+            return key
+        raise Unsupported("call of %s with %s arguments: no such translated method" % (m, nargs))
+
+    def gname(self, m):
+        return "g_" + m.replace("/", "_")
 
     def sig(self, m):
         if m not in self.sigs:
@@ -511,10 +568,10 @@ class Tr:
             b, t, kd = self.E(c["a"][0], st, env)
             if kd != "bool":
                 raise Unsupported("condition of kind %s" % kd)
-            if not has_return(c["a"][1]) and not (len(c["a"]) > 2 and has_return(c["a"][2])):
+            if not has_exit(c["a"][1]) and not (len(c["a"]) > 2 and has_exit(c["a"][2])):
                 # no early exit: the two branches join; the state and the locals they write flow on
                 names = sorted(n for n in set().union(*[self.assigned(x) for x in c["a"][1:]]) if n in env)
-                KJ = (lambda st_, env_: "Ok %s" % self.tuple_of(st_, env_, names), self.no_return)
+                KJ = (lambda st_, env_: "Ok %s" % self.tuple_of(st_, env_, names), self.no_return, None)
                 th = self.S([c["a"][1]], st, env, KJ)
                 el = self.S([c["a"][2]] if len(c["a"]) > 2 else [], st, env, KJ)
                 ns = self.fresh("s")
@@ -530,6 +587,38 @@ class Tr:
             th = self.S([c["a"][1]] + rest, st, env, K)
             el = self.S(([c["a"][2]] if len(c["a"]) > 2 else []) + rest, st, env, K)
             return "\n".join(b + ["if %s then (" % t, th, ") else (", el, ")"])
+        if k == "break":
+            if len(K) < 3 or K[2] is None:
+                raise Unsupported("break outside a translated loop")
+            return K[2](st, env)
+        if k in ("while", "for"):
+            if k == "for":
+                init, cond, inc, body = c["a"][0], c["a"][2], c["a"][3], c["a"][4]
+                pre = self.X(init, st, env) if init["k"] != "?None" else []
+                body = dict(k="block", t="", n=None, a=[body, inc])
+            else:
+                pre, cond, body = [], c["a"][0], c["a"][1]
+            if has_return(body):
+                raise Unsupported("return inside a loop")
+            names = sorted(n for n in (self.assigned(body) | self.assigned(cond)) if n in env)
+            benv, bst = dict(env), [self.fresh("s")]
+            for n in names:
+                benv[n] = (self.fresh("v_" + n + "_"), env[n][1])
+            acc_pat = self.tuple_of(bst, benv, names)
+            cst = [bst[0]]
+            bc, tc, kc = self.E(cond, cst, benv)
+            if kc != "bool" or cst[0] != bst[0]:
+                raise Unsupported("loop condition of kind %s" % kc)
+            bt = self.S([body], bst, benv, (lambda st_, env_: "Ok (true, %s)" % self.tuple_of(st_, env_, names), self.no_return,
+                                             lambda st_, env_: "Ok (false, %s)" % self.tuple_of(st_, env_, names)))
+            j, ns = self.fresh("j"), self.fresh("s")
+            pat = "let '%s := acc in" % acc_pat if names else "let %s := acc in" % acc_pat
+            lines = pre + ["do %s <- whileB (%s) (fun acc => %s" % (j, self.loop_fuel(st[0]), pat)] + bc + ["Ok %s" % tc,
+                           ") (fun acc => %s" % pat, bt, ") %s;" % self.tuple_of(st, env, names)]
+            for n in names:
+                env[n] = (self.fresh("v_" + n + "_"), env[n][1])
+            lines.append("let '%s := %s in" % (self.tuple_of([ns], env, names), j) if names else "let %s := %s in" % (ns, j))
+            return "\n".join(lines + [self.S(rest, [ns], env, K)])
         if k == "forrange":
             rng, body = c["a"]
             if has_return(body):
@@ -560,7 +649,7 @@ class Tr:
                     env_ = dict(env_)
                     env_["__fill"] = ("(%s ++ [(%s, %s)])" % (env_["__fill"][0], env_[c["n"][0]][0], env_[c["n"][1]][0]), "outvec")
                 return "Ok %s" % self.tuple_of(st_, env_, names)
-            bt = self.S([body], bst, benv, (done, self.no_return))
+            bt = self.S([body], bst, benv, (done, self.no_return, None))
             j, ns = self.fresh("j"), self.fresh("s")
             lines = br + ["do %s <- foldM (fun acc x => let '%s := acc in let '%s := x in" % (j, acc_pat, x_pat) if (names or len(xs) > 1) else
                           "do %s <- foldM (fun %s %s =>" % (j, acc_pat, x_pat),
@@ -578,6 +667,9 @@ class Tr:
 
     def X(self, c, st, env):
         """expression statement: list of bind lines; updates st"""
+        r = self.X_ext(c, st, env)
+        if r is not None:
+            return r
         k = c["k"]
         if k == "un" and c["n"] in ("pre++", "post++") and c["a"][0]["k"] == "ref":
             n = c["a"][0]["n"]
@@ -598,13 +690,17 @@ class Tr:
                 env[n] = (x, "outvec")
                 return out
             raise Unsupported("%s on an output vector" % m)
-        if k == "op" and c["n"] == "operator=" and c["a"][0]["k"] == "ref" and c["a"][0]["n"] in env:
+        if ((k == "op" and c["n"] == "operator=") or (k == "bin" and c["n"] == "=")) and c["a"][0]["k"] == "ref" and c["a"][0]["n"] in env:
             n = c["a"][0]["n"]
             b, t, kd = self.E(c["a"][1], st, env)
             if env[n][1] == "optval" and kd in ("optval", "val"):
                 x = self.fresh("v_" + n + "_")
                 env[n] = (x, "optval")
                 return b + ["let %s := %s in" % (x, t if kd == "optval" else "(Some %s)" % t)]
+            if env[n][1] == kd:
+                x = self.fresh("v_" + n + "_")
+                env[n] = (x, kd)
+                return b + ["let %s := %s in" % (x, t)]
             raise Unsupported("assignment of %s to local %s" % (kd, n))
         if k == "mcall":
             obj, m, args = c["a"][0], c["n"], c["a"][1:]
@@ -677,6 +773,13 @@ class Tr:
             raise Unsupported("assignment to %s" % show(lhs))
         raise Unsupported("statement %s" % show(c)[:200])
 
+    def loop_fuel(self, s):
+        """an upper bound on the iterations of any loop of the class, as a Gallina term over the state"""
+        f = self.sc.get("fuel")
+        if not f:
+            raise Unsupported("a while/for loop, and the schema gives no fuel bound")
+        return f % dict(s=s)
+
     def _bump(self, n, env):
         old = env[n][0]
         x = self.fresh("v_" + n + "_")
@@ -708,10 +811,10 @@ class Tr:
             if kd != rk:
                 raise Unsupported("return of kind %s in a function returning %s" % (kd, rk))
             return "Ok (%s, %s)" % (st_[0], t)
-        text = self.S(body["a"], ["s"], env, (done, ret))
+        text = self.S(body["a"], ["s"], env, (done, ret, None))
         rty = "res (%s %s)" % (self.sc["state"], self.sc["state_args"]) if rk == "unit" else \
               "res (%s %s * %s)" % (self.sc["state"], self.sc["state_args"], self.COQTY[rk])
-        return "Definition g_%s (s : %s %s) %s : %s :=\n%s." % (m, self.sc["state"], self.sc["state_args"], " ".join(params), rty, indent(text))
+        return "Definition %s (s : %s %s) %s : %s :=\n%s." % (self.gname(m), self.sc["state"], self.sc["state_args"], " ".join(params), rty, indent(text))
 
     def translate(self):
         sc = self.sc
@@ -720,6 +823,9 @@ class Tr:
                "From Coq Require Import Strings.String.", "",
                "Section Gen.", "  Context {K V : Type} `{EqDec K}.",
                "  Local Open Scope string_scope.", "  Local Open Scope list_scope.", "  Local Open Scope nat_scope.", ""]
+        if sc.get("clock"):
+            # the reading std::chrono::steady_clock::now() returns during the call being translated (one per public call)
+            out += ["  Variable clk : Z.", ""]
         fs = [f for f, _, _ in sc["fields"]]
         for f in fs:
             out.append("Definition set_%s (s : %s %s) x : %s %s := {| %s |}." % (
@@ -760,6 +866,15 @@ def has_return(c):
     return c["k"] == "return" or any(has_return(x) for x in c["a"])
 
 
+def has_exit(c):
+    """return, or a break that leaves a loop enclosing c"""
+    if c["k"] in ("return", "break"):
+        return True
+    if c["k"] in ("while", "for", "forrange"):
+        return has_return(c)
+    return any(has_exit(x) for x in c["a"])
+
+
 def indent(t):
     d, out = 1, []
     for l in t.split("\n"):
@@ -771,17 +886,33 @@ def indent(t):
     return "\n".join(out)
 
 
+FAMILY = {"lru_cache": None, "mru_cache": None, "fifo_cache": "cpp2coq_fifo", "rr_cache": "cpp2coq_rr",
+          "lfu_cache": "cpp2coq_lfu", "lfuda_cache": "cpp2coq_lfuda", "tlru_cache": "cpp2coq_tlru", "utlru_cache": "cpp2coq_utlru",
+          "ut_map": "cpp2coq_utmap", "ut_set": "cpp2coq_utset"}
+
+
 def generate(inc, cls):
-    inst = INST % dict(cls=cls)
+    trc = Tr
+    if FAMILY.get(cls):
+        import importlib
+        mod = importlib.import_module(FAMILY[cls])      # registers its SCHEMA entries, defines Ext(Tr)
+        trc = mod.Ext
+    inst = SCHEMA[cls].get("inst", INST) % dict(cls=cls)
     ms = class_methods(clang_objs(inc, cls, inst))
-    return Tr(cls, ms).translate()
+    return trc(cls, ms).translate()
 
 
-if __name__ == "__main__":
-    inc, cls, out = sys.argv[1:4]
+def main(argv):
+    inc, cls, out = argv[1:4]
     try:
         text = generate(inc, cls)
     except Unsupported as e:
         sys.stderr.write("cpp2coq: %s: unsupported construct: %s\n" % (cls, e))
-        sys.exit(3)
+        return 3
     open(out, "w").write(text)
+    return 0
+
+
+if __name__ == "__main__":
+    import cpp2coq          # one module object, so that the family modules register into the same SCHEMA
+    sys.exit(cpp2coq.main(sys.argv))
